@@ -255,7 +255,12 @@ func H_C06_RemovePipelineAndNodes() {
 	K, L := verifParam("K"), verifParam("L")
 	s := symBroker(K, L, true)
 	symCloseErrs(s)
-	ok, err := s.b.RemovePipelineAndNodes(context.Background(), s.t, s.p.id)
+	// the caller's context may be done already: what was started is completed and reported all the same
+	var rctx context.Context = context.Background()
+	if nondetBool() {
+		rctx = verifCancelledCtx(false)
+	}
+	ok, err := s.b.RemovePipelineAndNodes(rctx, s.t, s.p.id)
 	want := verifAnd(verifAnd(s.t != "", s.p.id != ""), s.hasG && s.p.present)
 	verifAssert(ok == want, "C06.rpan.true-iff-present")
 	if !ok {
